@@ -641,7 +641,9 @@ class Dict(dict, base.Symbolic, pg_typing.CustomTyping):
 
   def __getstate__(self) -> Any:
     """Customizes pickle.dump."""
-    return dict(value=dict(self), kwargs=self._init_kwargs())
+    # NOTE: the members are pickled in their symbolic form (an inferential
+    # member is not replaced by the value it currently resolves to).
+    return dict(value=dict(self.sym_items()), kwargs=self._init_kwargs())
 
   def __setstate__(self, state) -> None:
     """Customizes pickle.load."""
